@@ -23,7 +23,8 @@ NEEDS_LOOP = {"partition", "partition_t", "buffer", "delay", "rate_limit", "map_
 JOINS = {"union", "zip", "combine_latest", "zip_latest"}
 # kinds allowed on a feedback cycle: their state (if any) is final before they emit
 CYCLE_OK = {"map", "starmap", "filter", "unique", "flatten", "pluck", "union", "accumulate",
-            "entry"}
+            "entry", "partition", "partition_unique", "zip", "combine_latest", "zip_latest",
+            "sliding_window"}
 INTERVALS = [0.5, 1.0, 2.0]
 
 
@@ -245,7 +246,7 @@ def pipeline_spec(draw, kinds=None, min_nodes=1, max_nodes=7, max_entries=3, fee
     nodes = [{"k": "entry", "u": [], "p": {}, "t": "E"} for _ in range(n_entries)]
     n = draw(st.integers(min_nodes, max_nodes))
     guard = None
-    want_fb = feedback and draw(st.integers(0, 5)) == 0
+    want_fb = feedback and draw(st.integers(0, 3)) == 0
     if want_fb:
         nodes.append({"k": "unique", "u": [0],
                       "p": {"maxsize": None, "key": "key_self", "hashable": draw(st.booleans())},
@@ -272,7 +273,7 @@ def pipeline_spec(draw, kinds=None, min_nodes=1, max_nodes=7, max_entries=3, fee
         srcs = [i for i, nd in enumerate(nodes) if i > guard and nd["t"] == "E"
                 and nd["k"] != "sink" and reaches_only_via(nodes, i, guard)]
         if srcs:
-            fb = [draw(st.sampled_from(srcs)), 0]
+            fb = [srcs[-1] if draw(st.booleans()) else draw(st.sampled_from(srcs)), 0]
     return {"nodes": nodes, "fb": fb}
 
 
